@@ -445,7 +445,7 @@ impl<'a> Parser<'a> {
                 LexFStringPart::Literal(s) => FStringPart::Literal(s.clone()),
                 LexFStringPart::Expr(s) => {
                     // Parse simple field access chains like "user.name" or "obj.field.sub"
-                    let expr = self.parse_fstring_expr(s, fstring_span);
+                    let expr = self.parse_fstring_expr(s);
                     // Use the f-string's span so errors point to the f-string, not line 1
                     FStringPart::Expr(Spanned::new(expr, fstring_span))
                 }
@@ -453,7 +453,7 @@ impl<'a> Parser<'a> {
             .collect()
     }
 
-    fn parse_fstring_expr(&self, s: &str, fstring_span: Span) -> Expr {
+    fn parse_fstring_expr(&self, s: &str) -> Expr {
         // Properly parse the expression string by lexing and parsing it
         use crate::lexer;
 
@@ -465,12 +465,6 @@ impl<'a> Parser<'a> {
                     kind: TokenKind::Eof,
                     span: Span::default(),
                 });
-            }
-
-            // The hole is lexed on its own, so its token spans are relative to the hole's text. Give every token
-            // the f-string's span: diagnostics inside the hole then point at the f-string, not at the start of the file.
-            for token in tokens.iter_mut() {
-                token.span = fstring_span;
             }
 
             if tokens.len() > 1 {
